@@ -5,20 +5,21 @@ open Sexp
 
 type piped =
   | Rejected of string * string list        (* stage, messages *)
-  | Accepted of { parsed : term; elab : term; ty : term; ev : [ `Value of term | `Stuck of term | `NoEval ]; ctx_ok : bool; open_holes : int; raw : Sexp.t; parsed_sx : Sexp.t }
+  | Accepted of { parsed : term; elab : term; ty : term; ev : [ `Value of term | `Stuck of term | `NoEval ]; ctx_ok : bool; open_holes : int; open_holes_eval : int; raw : Sexp.t; parsed_sx : Sexp.t }
   | Other of string
 
 let parse_piped (res : Sexp.t) : piped =
   match res with
   | L (A (("lexerr" | "parseerr" | "typeerr") as st) :: ms) -> Rejected (st, List.map (fun m -> Gen_prog.string_of_hex (atom m)) ms)
   | L [ A "notutf8" ] -> Rejected ("notutf8", [])
-  | L [ A "ok"; p; e; t; ev; c; hk; raw ] ->
+  | L [ A "ok"; p; e; t; ev; c; hk; raw; hk2 ] ->
     let ev = (match ev with
         | L [ A "value"; v ] -> `Value (term_of_sexp v)
         | L [ A "stuck"; v ] -> `Stuck (term_of_sexp v)
         | _ -> `NoEval) in
     Accepted { parsed = term_of_sexp p; elab = term_of_sexp e; ty = term_of_sexp t; ev; ctx_ok = (atom c = "1");
-               open_holes = (match hk with L (A "hooks" :: oh :: _) -> int oh | _ -> -1); raw; parsed_sx = p }
+               open_holes = (match hk with L (A "hooks" :: oh :: _) -> int oh | _ -> -1);
+               open_holes_eval = (match hk2 with L (A "hooks" :: oh :: _) -> int oh | _ -> -1); raw; parsed_sx = p }
   | _ -> Other (Sexp.to_string res)
 
 let fuel_steps = nat_of_int 20000
